@@ -121,13 +121,23 @@ def strfuncs_compare(ctx, info, inp, report_prefix, replay_extra=None):
 
     cmp_list("path.Clean", inp["paths"], parse_nested(cout, "S_clean"), go["clean"], hexl)
     cmp_list("path.Base", inp["paths"], parse_nested(cout, "S_base"), go["base"], hexl)
-    cmp_list("normalizeHost", inp["hosts"], parse_nested(cout, "S_norm"), go["norm_host"], hexl)
+    if "normalizeHost" in (go.get("helpers_missing") or []):
+        # the helper twin is gone from the source: its model is then tied through matchHosts/resolveIngress only
+        C.report(ctx, "helper-twin-missing:normalizeHost", "run.go no longer has a function normalizeHost(string) string: Model normalize_host is compared "
+                 "through the resolver's host matching only", {"kind": "obligation", "no_failing_input_found": True, "names": "correspondence normalizeHost <-> Model normalize_host"})
+    else:
+        cmp_list("normalizeHost", inp["hosts"], parse_nested(cout, "S_norm"), go["norm_host"], hexl)
+
     cmp_list("strings.TrimSpace", inp["trims"], parse_nested(cout, "S_trim"), go["trim"], hexl)
     cmp_list("net.SplitHostPort", inp["hostports"], parse_nested(cout, "S_split"), go["split_host"],
              lambda m: (hexl(m[1:]) if m[0] == 1 else None))
     cmp_list("CanonicalHeaderKey", inp["keys"], parse_nested(cout, "S_canon"), go["canon"], hexl)
     cmp_list("router.MatchPath", inp["path_pairs"], parse_nested(cout, "S_mpath"), go["match_path"], lambda m: m == 1)
-    cmp_list("matchHosts", inp["host_pairs"], parse_nested(cout, "S_mhost"), go["match_host"], lambda m: m == 1)
+    if "matchHosts" in (go.get("helpers_missing") or []):
+        C.report(ctx, "helper-twin-missing:matchHosts", "run.go no longer has a function matchHosts(string, []string) bool: Model match_hosts is compared "
+                 "through the resolver (configuration x request runs) only", {"kind": "obligation", "no_failing_input_found": True, "names": "correspondence matchHosts <-> Model match_hosts"})
+    else:
+        cmp_list("matchHosts", inp["host_pairs"], parse_nested(cout, "S_mhost"), go["match_host"], lambda m: m == 1)
     return n, mism
 
 
